@@ -312,9 +312,8 @@ Conversion<Unit::ElectricCurrent, Unit::ElectricCurrent::ElementaryChargePerHour
 }
 
 template <typename NumericType>
-inline const std::
-    map<Unit::ElectricCurrent, std::function<void(NumericType* values, const std::size_t size)>>
-        MapOfConversionsFromStandard<Unit::ElectricCurrent, NumericType>{
+inline constexpr auto MapOfConversionsFromStandard<Unit::ElectricCurrent, NumericType>{
+  MakeConversionTable<Unit::ElectricCurrent, NumericType>({
           {Unit::ElectricCurrent::Ampere,
            Conversions<Unit::ElectricCurrent, Unit::ElectricCurrent::Ampere>::
                FromStandard<NumericType>},
@@ -348,12 +347,12 @@ inline const std::
           {Unit::ElectricCurrent::ElementaryChargePerHour,
            Conversions<Unit::ElectricCurrent, Unit::ElectricCurrent::ElementaryChargePerHour>::
                FromStandard<NumericType>},
+})
 };
 
 template <typename NumericType>
-inline const std::map<Unit::ElectricCurrent,
-                      std::function<void(NumericType* const values, const std::size_t size)>>
-    MapOfConversionsToStandard<Unit::ElectricCurrent, NumericType>{
+inline constexpr auto MapOfConversionsToStandard<Unit::ElectricCurrent, NumericType>{
+  MakeConversionTable<Unit::ElectricCurrent, NumericType>({
       {Unit::ElectricCurrent::Ampere,
        Conversions<Unit::ElectricCurrent, Unit::ElectricCurrent::Ampere>::ToStandard<NumericType>},
       {Unit::ElectricCurrent::Kiloampere,
@@ -386,6 +385,7 @@ inline const std::map<Unit::ElectricCurrent,
       {Unit::ElectricCurrent::ElementaryChargePerHour,
        Conversions<Unit::ElectricCurrent, Unit::ElectricCurrent::ElementaryChargePerHour>::
            ToStandard<NumericType>                      },
+})
 };
 
 }  // namespace Internal
